@@ -22,6 +22,7 @@ RULE = ("programs: extended ACLs (0..10 remarks/ACEs over the C01 grammar, nativ
         "re-reads the converted text unchanged. A refusal (ValueError) is accepted only where the target "
         "cannot express the input (single Ace with multi-port eq/neq to NX-OS, non-contiguous or 0/0 group "
         "member to IOS). Non-trivial: some entry's text must change; distinct by canonical program")
+RULE += ". Directed classes added after the seeded-change rounds: entries appended to the built ACL before the conversion; ACL names near 100 characters / starting with a header keyword; nested address groups; 17-bit wildcards under a raised limit; platform aliases; versions"
 ASSUMPTIONS = ["refsem strict platform syntax (DESIGN.md 2.3)", "name tables read from the library (pinned by C09)",
                "NX-OS member sequence numbers may be lost on the way to IOS"]
 
